@@ -168,6 +168,11 @@ def gen(rng, tier):
     cases = []
     for n, c, params in t["ctors"]:
         cases.append("ctor x%s" % n.encode().hex())
+    # constructors that take a text (a location, a message): the status is the constructor's own whatever the text is
+    TEXTS = ["", "/", "/next?msg=two\twords", "/a b", "/x\r\nSet-Cookie: a=b", "\x7f", "/%0d%0a", "http://other.example/", "/" + "p" * 300, "\t", "\x01"]
+    for n in ("redirect_301", "redirect_303", "unprocessable_entity_422"):     # (also when the translator could not read them)
+        for tx in TEXTS:
+            cases.append("ctor x%s x%s" % (n.encode().hex(), tx.encode().hex()))
     pls = list(PAYLOADS)
     for _ in range(6 if tier == "quick" else 200):
         ln = rng.randint(4, 40)
